@@ -4,7 +4,8 @@
    The model (Conf/Config.v) takes the entries of a Services table in the ORDER IN
    WHICH GO VISITS THE MAP; "independent of map iteration" is therefore: for all
    permutations of the entries (map keys are unique: NoDup of the names).  The
-   boolean argument of the readers selects the proposed fix F20 (sort the service
+   boolean argument of the readers selects the fix F20, which is in /repo (commit
+   52bede4; Corr.C18.code_fixed_F20 = true) (sort the service
    identities by name).  TOML lexing / printing and kyber's hex key codecs are not
    modelled: a file is what the decoder delivers, a key text comes with its parsed
    key (partial; exercised by the correspondence check). *)
@@ -55,7 +56,8 @@ Print Assumptions c18_sort_canonical.
 
 (* ---- F20: the pinned code (no sort) shows the order ----
    one server, two registered services, two visiting orders: different identities,
-   and for EVERY hash function two roster ids that can only be equal by a collision *)
+   and for EVERY hash function two roster ids that can only be equal by a collision
+   of SHA-256 / uuid-SHA1 on exactly the two rosters' pre-images (as in C13) *)
 Theorem c18_map_order_refuted :
   exists r s s',
     same_server_up_to_order s s' /\
@@ -64,7 +66,9 @@ Theorem c18_map_order_refuted :
       read_group false H256 U5 r [s] = GOk ids (RId a) /\
       read_group false H256 U5 r [s'] = GOk ids' (RId a') /\
       ids <> ids' /\
-      (a = a' -> exists x y, Collision H256 x y \/ Collision U5 x y).
+      (a = a' ->
+       Collision H256 (roster_pre (roster_of ids)) (roster_pre (roster_of ids')) \/
+       Collision U5 (roster_uuid_pre H256 (roster_of ids)) (roster_uuid_pre H256 (roster_of ids'))).
 Proof. exact map_order_refuted. Qed.
 Print Assumptions c18_map_order_refuted.
 
@@ -78,6 +82,34 @@ Theorem c18_roundtrip : forall (H256 U5 : bytes -> bytes) r suite ids,
       read_group true H256 U5 r ws' = GOk ids (new_roster H256 U5 (map gmember_of ids)).
 Proof. exact group_roundtrip. Qed.
 Print Assumptions c18_roundtrip.
+
+(* ---- the private configuration: CothorityConfig.Save, then LoadCothority ----
+   whatever order the next reader visits the written Services map in, it returns the
+   identity the first reader returned: public AND private key, address, description,
+   URL, every per-service key pair -- and hence the same roster id *)
+Theorem c18_roundtrip_private : forall r c c',
+  NoDup (map sc_name (co_srv c)) ->
+  same_cothority_up_to_order (write_private c) c' ->
+  get_server_identity true r c' = get_server_identity true r c.
+Proof. exact private_roundtrip. Qed.
+Print Assumptions c18_roundtrip_private.
+
+Theorem c18_roundtrip_private_roster : forall (H256 U5 : bytes -> bytes) r c c',
+  NoDup (map sc_name (co_srv c)) ->
+  same_cothority_up_to_order (write_private c) c' ->
+  read_private true H256 U5 r c' = read_private true H256 U5 r c.
+Proof. exact private_roundtrip_roster. Qed.
+Print Assumptions c18_roundtrip_private_roster.
+
+(* hypotheses satisfiable, and the identity really carries the private keys *)
+Example c18_roundtrip_private_example :
+  NoDup (map sc_name (co_srv (priv_conf [priv_sa; priv_sb]))) /\
+  same_cothority_up_to_order (write_private (priv_conf [priv_sa; priv_sb])) (priv_conf [priv_sb; priv_sa]) /\
+  exists i, get_server_identity true f20_reg (priv_conf [priv_sb; priv_sa]) = IOk i /\
+            i_priv i = Some secret_s /\
+            map sid_priv (i_srv i) = [Some secret_a; Some secret_b].
+Proof. exact private_roundtrip_example. Qed.
+Print Assumptions c18_roundtrip_private_example.
 
 (* the hypothesis of c18_roundtrip holds for whatever the reader returned *)
 Theorem c18_reader_output_canonical : forall r s i,
